@@ -236,7 +236,8 @@ def make_host(rng, k_inputs=None, n_gates=None):
     k = k_inputs if k_inputs is not None else rng.randint(2, 8)
     g = n_gates if n_gates is not None else rng.randint(0, 10)
     net = netgen.rand_net(rng, n_in=k, n_g=g, shape=rng.choice(['random', 'wide', 'diamond']),
-                          types=['AND', 'OR', 'XOR', 'NOT', 'NAND', 'GT', 'NXOR', 'IFF', 'LEQ'], max_arity=3,
+                          types=['AND', 'OR', 'XOR', 'NOT', 'NAND', 'GT', 'NXOR', 'IFF', 'LEQ', 'NOR', 'LT', 'GEQ', 'LNOT', 'RNOT',
+                                 'LIFF', 'RIFF'], max_arity=3,
                           n_out=rng.randint(0, 2), const_operands=False, label_style=rng.choice(['plain', 'digits']))
     lib = library_strings()
     if rng.random() < 0.3 and (FIXED_LABELS or lib):
